@@ -286,8 +286,9 @@ claim("C14",
       "C14_line_comment_directive / C14_block_comment_directive (when the nearest non-blank line is `//` body or "
       "`/*` body `*/`, the directive is in force iff body, lower-cased with the translated Unicode table and trimmed, "
       "IS the directive: every letter case and surrounding white space counts, nothing else does), "
-      "C14_code_line_without_slash, C14_directives_apply. Comments after code on the same line and several comments "
-      "on one line are NOT proved; decided by exploration: "
+      "C14_code_line_without_slash, C14_directives_apply, C14_trailing_line_comment_directive / "
+      "C14_trailing_block_comment_directive (a comment AFTER slash-free code on that line is found by the unanchored regex "
+      "and decides in the same way). Several comments on one line are NOT proved; decided by exploration: "
       "generated files with directives / near-misses in every position relative to 1-3 statements, blank-line runs, "
       "indentation, both comment styles, CRLF, plus an enumerated set of placements, against the property-text oracle "
       "on finder, model (translated comment regex, generated Unicode tables) and binary.",
